@@ -23,5 +23,6 @@ CONSTANTS
   RCModes = {0}
   Swaps = {0, 1}
   Revs = {0}
+  Dups = FALSE
 INVARIANTS Emit Reflexive Symmetric CaseInsensitive OrderInsensitive FlagMonotone EntryPointsAgree DemandOnModel GenSane
 CHECK_DEADLOCK FALSE
